@@ -74,12 +74,33 @@ def failed_match(g, pol, is_match_value):
     return False
 
 
-def pattern_text(node):
-    if isinstance(node, ast.Constant) and isinstance(node.value, str):
-        return node.value
-    if isinstance(node, ast.JoinedStr) and all(isinstance(v, ast.Constant) for v in node.values):
-        return "".join(v.value for v in node.values)
-    return None
+def pattern_text(node, scope=None):
+    """the pattern as text when it is a literal, or an f-string / concatenation of literals and local names bound once to a literal
+    (scope: the function the call stands in)"""
+    consts = {}
+    if scope is not None:
+        seen = {}
+        for n in ast.walk(scope):
+            if isinstance(n, ast.Assign) and len(n.targets) == 1 and isinstance(n.targets[0], ast.Name):
+                seen.setdefault(n.targets[0].id, []).append(n.value)
+        consts = {k: v[0].value for k, v in seen.items() if len(v) == 1 and isinstance(v[0], ast.Constant) and isinstance(v[0].value, str)}
+
+    def txt(x):
+        if isinstance(x, ast.Constant) and isinstance(x.value, str):
+            return x.value
+        if isinstance(x, ast.Name) and x.id in consts:
+            return consts[x.id]
+        if isinstance(x, ast.FormattedValue) and x.format_spec is None and x.conversion == -1:
+            inner = txt(x.value)
+            return inner
+        if isinstance(x, ast.JoinedStr):
+            parts = [txt(v) for v in x.values]
+            return None if any(p is None for p in parts) else "".join(parts)
+        if isinstance(x, ast.BinOp) and isinstance(x.op, ast.Add):
+            l, r = txt(x.left), txt(x.right)
+            return None if l is None or r is None else l + r
+        return None
+    return txt(node)
 
 
 def group_uses(expr, mvar):
@@ -119,7 +140,7 @@ def r19_1(ctx):
     calls = find_re_call(fi.node, idx=idx, cls=PP)
     ctx.need(len(calls) == 1, f"split_resolved_shortcode: expected one re.match/search call, found {len(calls)}")
     c = calls[0]
-    pat = pattern_text(c.args[0])
+    pat = pattern_text(c.args[0], fi.node)
     ctx.need(pat is not None, "split_resolved_shortcode: pattern is not a literal")
     flags = re.ASCII if any("ASCII" in U(a) for a in c.args[2:]) or any("ASCII" in U(k.value) for k in c.keywords) else 0
     atoms = rx.parse(pat, flags)
@@ -172,7 +193,7 @@ def r19_2(ctx):
     calls = find_re_call(fi.node, idx=idx, cls=PP)
     ctx.need(len(calls) == 1, f"split_compounds: expected one re.match call, found {len(calls)}")
     c = calls[0]
-    pat = pattern_text(c.args[0])
+    pat = pattern_text(c.args[0], fi.node)
     ctx.need(pat is not None, "split_compounds: pattern is not a literal")
     atoms = rx.parse(pat)
     w = fn_where(idx, fi)
